@@ -89,7 +89,7 @@ Theorem c01_write_read_roundtrip :
   forall ops t, table_of sch ops = Some t ->
   exists sts w, run_writer compress header footer sch opts ops = Ok (sts, w, true) /\ all_ok sts = true /\
     (Forall (fun g => Forall small_chunk (rg_chunks g)) (f_groups w) ->
-     len (footer (mkfm 2 sch (f_total_rows w) (f_groups w) (created_by opts))) < 2 ^ 32 ->
+     len (footer (mkfm footer_version sch (f_total_rows w) (f_groups w) (created_by opts))) < 2 ^ 32 ->
      exists r, read_all (o_codec opts) decompress parse_header parse_footer verify (f_out w) = Ok r
                /\ drop_empty r = result_of_table t).
 Proof. exact write_read_roundtrip. Qed.
